@@ -400,6 +400,42 @@ class Interp:
             return lang, lang.complement()
         if k == 'bool':
             return (DFA.universal(), DFA.empty()) if e['v'] else (DFA.empty(), DFA.universal())
+        if k == 'match':
+            # match <slice> { <slice pattern> => <bool expr>, .. }: arms in order, each on what the earlier patterns left over
+            off = self.view(e['e'], env)
+            T = DFA.empty(); F = DFA.empty()
+            remaining = DFA.universal()
+            for arm in e['arms']:
+                if arm['guard']:
+                    raise Undecided('match arm with guard')
+                lang, binds = self.slice_pat(arm['pat'], off)
+                env_i = dict(env); env_i.update(binds)
+                t1, f1 = self.eval_bool(arm['body'], env_i)
+                here = remaining.intersect(lang)
+                T = T.union(here.intersect(t1)); F = F.union(here.intersect(f1))
+                remaining = remaining.intersect(lang.complement())
+            return T, F
+        if k == 'mcall' and e['m'] == 'is_some_and' and len(e['args']) == 1 and e['recv']['k'] == 'mcall' and e['recv']['m'] in ('split_first', 'first') and not e['recv']['args'] and e['args'][0]['k'] == 'closure' and len(e['args'][0]['params']) == 1:
+            # v.split_first().is_some_and(|(first, rest)| ..)  /  v.first().is_some_and(|first| ..)
+            off = self.view(e['recv']['recv'], env)
+            has = prefix_any(off, rx(('cat', [ANY, ('star', ANY)])))
+            p = e['args'][0]['params'][0]
+            while p['k'] in ('ref', 'typed'):
+                p = p['p']
+            env_i = dict(env)
+            if e['recv']['m'] == 'split_first':
+                if p['k'] != 'tuple' or len(p['ps']) != 2 or any(q['k'] not in ('ident', 'wild') for q in p['ps']):
+                    raise Undecided('split_first closure parameter')
+                if p['ps'][0]['k'] == 'ident':
+                    env_i[p['ps'][0]['name']] = ('byte', off)
+                if p['ps'][1]['k'] == 'ident':
+                    env_i[p['ps'][1]['name']] = ('slice', off + 1)
+            else:
+                if p['k'] != 'ident':
+                    raise Undecided('first closure parameter')
+                env_i[p['name']] = ('byte', off)
+            t1, f1 = self.eval_bool(e['args'][0]['body'], env_i)
+            return has.intersect(t1), has.complement().union(has.intersect(f1))
         if k == 'block':
             return self.eval_block(e['stmts'], env, DFA.universal())
         if k == 'unary' and e['op'] == '!':
